@@ -12,6 +12,7 @@ import (
 	"math/rand"
 	"os"
 	"path/filepath"
+	"runtime/debug"
 	"strings"
 
 	"helm.sh/helm/v4/pkg/action"
@@ -58,10 +59,18 @@ var c20TemplateExtras = []string{
 	"alias-bomb", "alias-bomb-small", "deep-flow", "deep-block", "many-docs", "long-scalar", "deep-json-schema",
 	"symlink-loop-parent", "symlink-self", "symlink-dangling", "symlink-charts-loop", "symlink-dev-zero", "symlink-outside-dir", "symlink-file-ok",
 	"big-range", "nested-range", "values-not-map", "templates-dir-file", "chart-yaml-dir", "crd-garbage", "notes-recursion", "helmignore-everything",
+	// round 4 (appended: the corpus numbers its cases by position): tpl that re-enters tpl with a
+	// text that differs from level to level, include / tpl feeding each other, include through many names
+	"tpl-vary-counter", "tpl-vary-alternate", "tpl-vary-values", "tpl-include-mutual-vary", "include-cycle-names",
 }
 
+// c20KnownStackWitness: the extra that replays the known finding K10 (include x template); only in
+// the corpus, never generated
+const c20KnownStackWitness = "include-x-template"
+
 var c20ExpensiveExtra = map[string]bool{"tpl-self": true, "tpl-values-self": true, "include-self": true, "include-mutual": true, "template-self": true,
-	"include-counted": true, "tpl-counted": true, "notes-recursion": true, "deep-block": true}
+	"include-counted": true, "tpl-counted": true, "notes-recursion": true, "deep-block": true,
+	"tpl-vary-counter": true, "tpl-vary-alternate": true, "tpl-vary-values": true, "tpl-include-mutual-vary": true, "include-cycle-names": true}
 
 // c20ApplyExtra writes the extra into the directory (files already written). seed drives the
 // size choices so that the case replays.
@@ -150,6 +159,35 @@ func c20ApplyExtra(dir, extra string, seed int64) {
 		w("values.yaml", "replicas: 1\nselfref: \"{{ tpl .Values.selfref . }}\"\n")
 	case "helmignore-everything":
 		w(".helmignore", "*\n!Chart.yaml\n/\n**\n[\n")
+	case "tpl-vary-counter":
+		// every level hands tpl its own text behind a comment that counts: no two levels have the same text
+		w("templates/t.yaml", "v: {{ tpl .Values.t (dict \"Values\" .Values \"n\" 0) }}\n")
+		w("values.yaml", "replicas: 1\nt: '{{ tpl (printf \"{{/* %d */}}%s\" (int .n) .Values.t) (dict \"Values\" .Values \"n\" (add1 (int .n))) }}'\n")
+	case "tpl-vary-alternate":
+		w("templates/t.yaml", "v: {{ tpl .Values.ta . }}\n")
+		w("values.yaml", "replicas: 1\nta: '{{ tpl .Values.tb . }}'\ntb: '{{ tpl .Values.ta . }}{{/* b */}}'\n")
+	case "tpl-vary-values":
+		// the text is built from .Values and grows by one blank per level
+		w("templates/t.yaml", "v: {{ tpl .Values.t (dict \"Values\" .Values \"n\" 1) }}\n")
+		w("values.yaml", "replicas: 1\nt: '{{ tpl (print .Values.t (repeat (int .n) \" \")) (dict \"Values\" .Values \"n\" (add1 (int .n))) }}'\n")
+	case "tpl-include-mutual-vary":
+		w("templates/t.yaml", "{{- define \"m\" -}}{{ tpl (printf \"{{/* %d */}}{{ include \\\"m\\\" (dict \\\"n\\\" %d) }}\" (int .n) (add1 (int .n))) . }}{{- end -}}\nv: {{ include \"m\" (dict \"n\" 0) }}\n")
+	case "include-cycle-names":
+		// witness of 55109f6: 200 templates that include each other in a cycle; per-name counting let
+		// them nest 200 x 1001 deep, which ran out of stack
+		var b strings.Builder
+		n := 150 + r.Intn(100)
+		for i := 0; i < n; i++ {
+			b.WriteString(fmt.Sprintf("{{- define \"cy%d\" -}}{{ include \"cy%d\" . }}{{- end -}}\n", i, (i+1)%n))
+		}
+		b.WriteString("v: {{ include \"cy0\" . }}\n")
+		w("templates/t.yaml", b.String())
+	case c20KnownStackWitness:
+		// known finding K10: include starts a fresh text/template state, so the library's own bound on
+		// `template` nesting (100 000 per state) multiplies with the bound on include nesting
+		w("templates/t.yaml", "{{- define \"a\" -}}{{ template \"b\" (dict \"n\" 1000) }}{{- end -}}\n"+
+			"{{- define \"b\" -}}{{ if gt (int .n) 0 }}{{ template \"b\" (dict \"n\" (sub (int .n) 1)) }}{{ else }}{{ include \"a\" . }}{{ end }}{{- end -}}\n"+
+			"v: {{ include \"a\" . }}\n")
 	}
 }
 
@@ -164,6 +202,12 @@ func c20RunTemplate(e *c20ExploreC, step *string) bool {
 		seed = seed<<8 | int64(b)
 	}
 	c20ApplyExtra(dir, e.Note, seed)
+	if e.Note == c20KnownStackWitness {
+		// the replay of a known crash need not fill the default 1 GB of goroutine stack (6 s and a
+		// gigabyte on every run): a quarter of it shows the same unbounded growth.  The worker dies
+		// with this case, the setting goes with it.
+		debug.SetMaxStack(256 << 20)
+	}
 	*step = "loader.Load(dir)"
 	chrt, err := loader.Load(dir)
 	if err != nil {
